@@ -34,7 +34,7 @@ P = 'circus.process:Process.'
 
 
 def check(run, ctx):
-    run.each(ctx, [r1, r2, r3, r4, r5, r6, r7])
+    run.each(ctx, [r1, r2, r3, r4, r5, r6, r7, r8])
 
 
 def r7(run, ctx):
@@ -468,7 +468,12 @@ def r4(run, ctx):
             'fmt_options' in norm_text(n.ast)]
     lv = {h.ast.target.id for h in ctx.cfg(rp).nodes if h.kind == 'iter' and
           isinstance(h.ast.target, ast.Name)}
-    oklow = bool(look)
+    run.check('R4', bool(look), 'a reference is resolved by membership in the variable table',
+              rp, rp.node, 'the substitution does not test whether the referenced name is a '
+              'defined variable (a truthiness test of the value treats a variable defined as '
+              "'' / 0 / False as undefined and leaves the reference unexpanded)",
+              construct='NO-MEMBERSHIP-LOOKUP')
+    oklow = True
     for n in look:
         if isinstance(n.ast, ast.Compare):
             for a in rdr.expand(n, n.ast.left):
@@ -617,3 +622,11 @@ def r6(run, ctx):
               rets[0].ast, 'worker ids do not start at 1 / do not cover the target count')
     run.check('R6', any(t == 'property' for t, _ in f.decorators), '_nextwid is evaluated at each '
               'spawn', f, f.node)
+
+
+def r8(run, ctx):
+    from rules import c09
+    run.share(ctx, c09.r2, 'R2', 'R8', 'reap_process untracks a worker only when it has '
+              'collected it (shared with C09 R2: no way out of reap_process between the removal '
+              'of the pid and the reap event): a worker dropped from the table while alive frees '
+              'its wid, and _nextwid hands it to the next spawn - two live workers with one id')
